@@ -158,6 +158,18 @@ def run(tier, rep, ev):
             if os.environ.get("VERIF_DEBUG_SKIPS"):
                 print("SKIP", o.value[0].get("why"), opts.get("base_id"))
         elif o.status == "ok":
+            # creation / last-access times of the base's members, in the reference reader's view, after every session
+            b0 = next((x for x in o.value if x.get("e") == "base"), None)
+            if b0 and b0.get("times2"):
+                for x in o.value:
+                    t2 = (x.get("ref") or {}).get("times2")
+                    if x.get("e") == "reopen" and x.get("ok") and t2 is not None and t2[:len(b0["times2"])] != b0["times2"]:
+                        rep.violation("foreign-base:ctime-atime-dropped", "creation / last-access times of the base's members changed: "
+                                      f"{b0['times2'][:3]} -> {t2[:3]}", {"hist": h, "base": opts.get("base_id")})
+                        break
+            for x in o.value:                          # (not part of what TLC judges)
+                x.pop("times2", None)
+                (x.get("ref") or {}).pop("times2", None)
             traces.append(o.value)
             oo = dict(opts)
             if "base" in oo:
